@@ -198,12 +198,14 @@ def call_impl(b, obs, load):
         elif obs == 'stress_secondary_branch':
             r = b.stress_secondary_branch(load)
         else:
-            zero = load * 0.0          # the stress argument is documented as unused by Binned
+            # Binned.strain*(stress, load) depends on the load only (the stress argument is not used): it is called
+            # with a stress of the opposite sign and a different magnitude than the binned stress of that load
             try:
                 first = b.stress(load) if obs == 'strain' else b.stress_secondary_branch(load)
+                other = -(first * 1.5) - np.sign(first)
             except Exception:
-                first = zero
-            r = b.strain(first, load) if obs == 'strain' else b.strain_secondary_branch(first, load)
+                other = -(load * 1.5) - np.sign(load)
+            r = b.strain(other, load) if obs == 'strain' else b.strain_secondary_branch(other, load)
     except ValueError as e:
         return ('ValueError', str(e)[:120])
     except Exception as e:
@@ -343,6 +345,8 @@ def check_tables(cfg, b, law):
                     return W_TABLE, {'obs': obs, 'point': nid, 'class': k, 'observed': 'edge %r' % e, 'expected': 'k/n*Lmax = %r' % float(ex)}
             if Lm > 0 and any(x >= y for x, y in zip(edges, edges[1:])):
                 return W_TABLE, {'obs': obs, 'point': nid, 'observed': 'edges not strictly ascending'}
+            if edges[-1] != fac * float(Lm):      # the maximum itself is always looked up: it must be the top edge exactly
+                return W_TABLE, {'obs': obs, 'point': nid, 'observed': 'top edge %r' % edges[-1], 'expected': 'the initialised range %r' % (fac * float(Lm))}
             if inj:
                 for k, (e, v) in enumerate(zip(edges, vals), 1):
                     want = inj_exact(cfg['law']['coef'], obs, e)
@@ -598,11 +602,15 @@ def plan_multi(plan, rng, cfg, exact, nloads, u=None, jexp=None):
         for _ in range(nloads):
             if exact:
                 g = rng.choice([rng.randint(-(4 * m + 6), 4 * m + 6), 4 * rng.randint(-m, m), 4 * rng.randint(-m, m) + rng.choice([-1, 1])])
-                Ls = [g * ui / 2.0 ** (jexp + 2) for ui in u]        # L_i / Lmax_i = g / (4 n) for every point, exactly
+                Ls = [g * ui / 2.0 ** (jexp + 2) for ui in u]        # |L_i| / Lmax_i = |g| / (4 n) for every point, exactly
+                if rng.random() < 0.5:                               # points scaled by negative factors
+                    Ls = [rng.choice([1.0, -1.0]) * L for L in Ls]
             else:
                 k = rng.randint(0, m)
                 c = rng.choice([rng.uniform(-1.1, 1.1) * fac, k / n, -k / n, math.nextafter(k / n, math.inf), -math.nextafter(k / n, 0.0)])
                 Ls = [c * Lm for Lm in Lms]
+                if rng.random() < 0.5:
+                    Ls = [rng.choice([1.0, -1.0]) * L for L in Ls]
             case = dict(cfg=cfg, obs=obs, mode='multi', load=Ls)
             r = eval_case(case)
             if r and r[0] == 'skip':
@@ -661,6 +669,16 @@ def build_plan(res):
         law = rng.choice([EN1, EN2, SB1, rand_inj(rng)])
         plan_multi(plan, rng, dict(law=law, Lmax=Lms, bins=n, node_ids=rng.sample(range(1, 50), P)), False, 8 if quick else 30)
     return plan
+
+
+def corpus_cases():
+    """Hand-picked / minimised inputs (corpus/C07/*.json), evaluated first on every run."""
+    import glob
+    import os
+    out = []
+    for f in sorted(glob.glob(os.path.join(common.CORPUS, 'C07', '*.json'))):
+        out.append(json.load(open(f)))
+    return out
 
 
 def zero_first_cases(rng, k):
@@ -732,7 +750,9 @@ def run(res):
         res.sample(c)
 
     # ---- D2 / search: the property's relations on the implementation (disagreeing cases first)
-    todo = bad_cases[:200] + plan.cases + zero_first_cases(res.rng, 2 if quick else 10)
+    corpus = corpus_cases()
+    res.cov['corpus_cases'] = len(corpus)
+    todo = corpus + bad_cases[:200] + plan.cases + zero_first_cases(res.rng, 2 if quick else 10)
     nrel, shown = 0, {}
     for case in todo:
         try:
